@@ -66,7 +66,8 @@ type G struct {
 	name    string
 	gate    chan struct{}
 	site    string
-	waiting bool // waiting for a lock to be released
+	frozen  time.Time // not eligible before this instant of the bubble clock (a stalled goroutine)
+	waiting bool      // waiting for a lock to be released
 	spawned int
 	prio    int
 	hasPrio bool
@@ -119,6 +120,13 @@ type Sim struct {
 	starveKey  string
 	starveOneIn int
 	stickyNum  int
+
+	// Freeze: the "stalled goroutine" fault.  When on, the scheduler now and then
+	// makes a parked goroutine ineligible for a while of simulated time (a disk
+	// write that hangs, a long GC pause, a descheduled thread), so that timeouts
+	// and tickers elsewhere fire while it is stuck at exactly that point.
+	Freeze      bool
+	FreezeCount int
 
 	// granularity yields enabled for these package ids
 	stmtOn [pkgCount]bool
@@ -566,10 +574,32 @@ func (s *Sim) Run(root func()) string {
 			return Exit_
 		}
 		names := make([]string, 0, len(s.parked))
+		now := time.Now()
+		var thaw time.Time
 		for n, g := range s.parked {
-			if !g.waiting {
-				names = append(names, n)
+			if g.waiting {
+				continue
 			}
+			if now.Before(g.frozen) {
+				if thaw.IsZero() || g.frozen.Before(thaw) {
+					thaw = g.frozen
+				}
+				continue
+			}
+			names = append(names, n)
+		}
+		if len(names) == 0 && !thaw.IsZero() {
+			// only frozen goroutines are left: let the clock run to the first thaw (or
+			// to an earlier timer of somebody who sleeps)
+			s.mu.Unlock()
+			idle.Reset(thaw.Sub(now))
+			select {
+			case <-s.wake:
+			case <-idle.C:
+			}
+			s.IdleJumps++
+			GlobalSteps.Add(1)
+			continue
 		}
 		if len(names) == 0 {
 			nlive := len(s.live)
@@ -614,6 +644,18 @@ func (s *Sim) Run(root func()) string {
 		if s.Steps >= s.Budget {
 			s.mu.Unlock()
 			return Budget
+		}
+		if s.Freeze && len(names) > 1 {
+			// stall one of the eligible goroutines where it stands
+			if k := s.T.DW(40, 1); k == 1 {
+				v := names[s.T.D(len(names))]
+				d := []time.Duration{time.Millisecond, 150 * time.Millisecond, 700 * time.Millisecond, 3 * time.Second, 2 * time.Minute}[s.T.D(5)]
+				s.parked[v].frozen = now.Add(d)
+				s.FreezeCount++
+				s.logLocked(fmt.Sprintf("freeze %s for %v at %s", v, d, s.parked[v].site))
+				s.mu.Unlock()
+				continue
+			}
 		}
 		idx := s.T.DF(len(names), func(r *Rand) int { return s.strategyPick(names) })
 		pick := names[idx]
